@@ -35,11 +35,12 @@ const (
 	mHighTag
 	mArc80
 	mAppendByte
+	mTimeChar
 	mOpCount
 )
 
 var mutNames = []string{"retag", "len-delta", "len-nonminimal", "len-indefinite", "swap", "dup", "delete", "content", "int-nonminimal", "empty",
-	"latin", "bad-bool", "bit-pad", "odd-time", "flip", "truncate", "insert", "high-tag", "arc80", "append-byte"}
+	"latin", "bad-bool", "bit-pad", "odd-time", "flip", "truncate", "insert", "high-tag", "arc80", "append-byte", "time-char"}
 
 var oddTimes = []string{
 	"0601021504Z", "060102150405+0100", "0601021504-0330", "060102150405", "060102150460Z", "060230120000Z", "061302120000Z", "060102240000Z",
@@ -285,6 +286,24 @@ func applyMuts(d []byte, muts []Mut) ([]byte, []string) {
 			setContent(n, nc)
 		case mAppendByte:
 			tail = append(tail, byte(m.A))
+		case mTimeChar:
+			// replace ONE character of a time string (every position is reachable) by a sign, blank or punctuation
+			var times []*derx.Node
+			for _, x := range nodes {
+				if c := x.Content; x.Children == nil && len(c) >= 11 && len(c) <= 24 && isDigits(c[:6]) {
+					times = append(times, x)
+				}
+			}
+			if len(times) > 0 {
+				n = times[m.Node%len(times)]
+			}
+			c := append([]byte{}, contentOf(n)...)
+			if len(c) == 0 {
+				done = false
+				break
+			}
+			c[m.A%len(c)] = "+- .,:Z0/"[(m.A/len(c))%9]
+			setContent(n, c)
 		}
 		if done {
 			applied = append(applied, mutNames[m.Op])
